@@ -61,7 +61,7 @@ def instance_of(type_: type[Any] | tuple[type[Any], ...]) -> ValidatorType:
         """
         We use a callable class to be able to change the ``__repr__``.
         """
-        if not isinstance(value, type_):
+        if not isinstance(value, type_) or (type_ is int and isinstance(value, bool)):
             raise TypeError(
                 f"'{field.name}{suffix}' must be of type {type_!r} "
                 f"(got {value!r} that is a {value.__class__!r})."
@@ -103,14 +103,17 @@ def in_(options: Sequence) -> ValidatorType:
     """
     A validator that raises a `ValueError` if the initializer is called
     with a value that does not belong in the options provided.  The check is
-    performed using ``value in options``.
+    performed using equality with an option of the same type
+    (so ``2.0`` or ``True`` are not in ``[1, 2]``).
 
     :param options: Allowed options.
     """
 
     def _validator(inst, field, value, suffix=""):
         try:
-            in_options = value in options
+            in_options = any(
+                value == option and type(value) is type(option) for option in options
+            )
         except TypeError:  # e.g. `1 in "abc"`
             in_options = False
 
